@@ -294,7 +294,20 @@ func c16(c *Ctx) {
 		}
 		// the receiver is the range element of f.backends
 		rp := pathOf(send.Common().Value)
-		r.Check("sendMetricsAsync:ranges-backends", strings.HasPrefix(rp, "f.backends[") && strings.Contains(rp, "rangeindex"), send.Pos(), "backend = "+rp)
+		okRange := false
+		if ld, ok := send.Common().Value.(*ssa.UnOp); ok && ld.Op == token.MUL {
+			if ia, ok := ld.X.(*ssa.IndexAddr); ok && pathOf(ia.X) == "f.backends" {
+				idx := ia.Index
+				if b := asBinOp(idx, token.ADD); b != nil {
+					idx = b.X
+				}
+				if ph, ok := idx.(*ssa.Phi); ok && isLoopHead(ph.Block()) {
+					// the counter runs over every index: from 0 (or -1 before the increment) in steps of one up to len(f.backends)
+					okRange = loopCoversSlice(ph, ia.X)
+				}
+			}
+		}
+		r.Check("sendMetricsAsync:ranges-backends", okRange, send.Pos(), "backend = "+rp+" for every index of f.backends")
 		r.Check("sendMetricsAsync:add-before-send", add != nil && instrDominates(add, send), send.Pos(), "Add precedes the sends")
 		// callback: closure with exactly one wg.Done on every path
 		cbv := send.Common().Args[2]
@@ -590,4 +603,39 @@ func startedWithGo(fn, g *ssa.Function) bool {
 		})
 	}
 	return found
+}
+
+// loopCoversSlice: the loop counter ph visits every index of slice s exactly once: it starts at 0
+// (or -1 when incremented before use, the range form), advances by one, and the loop runs while
+// it is below len(s).
+func loopCoversSlice(ph *ssa.Phi, s ssa.Value) bool {
+	okInit, okStep := false, false
+	var stepped ssa.Value
+	for _, e := range ph.Edges {
+		if n, isC := constInt(e); isC && (n == 0 || n == -1) {
+			okInit = true
+		} else if b := asBinOp(e, token.ADD); b != nil && b.X == ssa.Value(ph) {
+			if one, isC := constInt(b.Y); isC && one == 1 {
+				okStep = true
+				stepped = b
+			}
+		}
+	}
+	if !okInit || !okStep {
+		return false
+	}
+	// the bound test: (ph or ph+1) < len(s)
+	okBound := false
+	for _, cand := range []ssa.Value{ph, stepped} {
+		for _, ref := range referrers(cand) {
+			b, ok := ref.(*ssa.BinOp)
+			if !ok || b.Op != token.LSS || b.X != cand {
+				continue
+			}
+			if lc, ok := b.Y.(*ssa.Call); ok && isCall(lc, "builtin len") && pathOf(lc.Call.Args[0]) == pathOf(s) {
+				okBound = true
+			}
+		}
+	}
+	return okBound
 }
